@@ -109,8 +109,8 @@ class Sim:
                     return getattr(base, call.func.attr)(*[ev.ev(a) for a in call.args])
                 except (IndexError, ValueError) as ex:
                     raise Raised(type(ex).__name__, call)
-        if name == "deque" and not call.args:
-            return deque()
+        if name == "deque":
+            return deque(*[ev.ev(a) for a in call.args])
         if name == "list" and len(call.args) == 1:
             return list(ev.ev(call.args[0]))
         return NotImplemented
